@@ -1,7 +1,7 @@
 //! C01 — UTXO answers are exactly the ledger state at the tip they name.
 use crate::chain::*;
 use crate::engine::{explore, Limits, Out};
-use crate::factory::{self, COL_LONG, COL_SHORT};
+use crate::factory;
 use crate::ledgercheck::*;
 use crate::report::Report;
 use crate::util::{fp64, short};
